@@ -68,6 +68,29 @@ Definition pb_struct_ok : bool :=
   && lits_are lits_NewMerkleBlockFromMsg 12 [1; 8; 9; 10; 11]%nat []     (* i := uint32(0); bitsUsed: 0; hashesUsed: 0; make(.., 0) (x2) *)
   && lits_are lits_PartialBlock_ExtractMatches 8 [] [].
 
+(* ---------- the domain on which this file is the code ----------
+   Three things the Go code does are NOT in the model; the property theorems (Props/C11.v, C12.v) carry
+   the corresponding hypotheses, and the machine-translated ties (Tie/Kernels3_Merkle*.v) are proved
+   under the same ones:
+   (a) NewMerkleBlockFromMsg bounds its decoding loop by uint32(len(bits)) and ExtractMatches compares
+       cursors with uint32(len(m.bits)) / uint32(len(m.finalHashes)): with len(Flags)*8 >= 2^32 (512 MB
+       of flags; wire decoding allows maxTxPerBlock/8 bytes) the bound wraps (2^29 flag bytes: bound 0,
+       every bit stays 0) whereas [bits_of_flags] decodes every byte and the model's cursors are [nat]s.
+       [msg_in_domain]: len(Flags)*8 < 2^32 and len(Hashes) < 2^32.
+   (b) calcBlock / bloom.NewMerkleBlock discard the error of wire's MsgMerkleBlock.AddTxHash, which
+       refuses the hash when the message already holds maxTxPerBlock() = MaxBlockPayload()/10 + 1 of
+       them (12800001 with the 128 MB limit of this bchd; the harness checks the formula and, in the
+       thorough tier, the behaviour).  The models append every hash.  [add_tx_hash_cap]: the builder
+       theorems assume at most that many transactions (a message never has more hashes than that).
+   (c) traverseAndBuild indexes m.matchedBits[i] for i < m.numTx; [mb_is_parent]/[bl_is_parent] are total
+       (a missing entry counts as 0).  The only constructors of the struct (the three exported
+       builders) establish len(matchedBits) = len(allHashes) = numTx, and the theorems are about the
+       exported builders ([mb_new_with_txnset], [mb_new_with_filter], [bl_new]), where the matched bits
+       are built with exactly that length; nothing is claimed about traverseAndBuild on other structs. *)
+Definition add_tx_hash_cap : N := 12800001.
+Definition msg_in_domain (m : msg) : Prop :=
+  N.of_nat (length (m_flags m)) * 8 < 2 ^ 32 /\ N.of_nat (length (m_hashes m)) < 2 ^ 32.
+
 Fixpoint nseq (start : N) (len : nat) : list N :=
   match len with O => [] | S k => start :: nseq (start + 1) k end.
 
